@@ -13,6 +13,7 @@ import (
 	"os/exec"
 	"path/filepath"
 	"runtime"
+	"runtime/debug"
 	"sort"
 	"strings"
 	"sync"
@@ -136,6 +137,9 @@ func runMutant(repo string, m mutant, prop string) mutantOutcome {
 }
 
 func runThorough(w *World, repo, mutDir, prop string, withConfigs bool) map[string]interface{} {
+	// the thorough tier loads the tree hundreds of times in one process: collect eagerly, several thorough runs may
+	// share the machine
+	debug.SetGCPercent(30)
 	res := map[string]interface{}{}
 	if withConfigs {
 		// (a) other build configurations: same verdict expected
@@ -248,6 +252,7 @@ func runSeeds(repo, verifDir, prop string) map[string]interface{} {
 		o := outcome{ID: sm.ID}
 		func() {
 			defer os.RemoveAll(tmp)
+			defer debug.FreeOSMemory() // one loaded tree per seeded change: give it back before the next one
 			cp := exec.Command("cp", "-r", repo+"/.", tmp)
 			if out, err := cp.CombinedOutput(); err != nil {
 				o.Outcome = "skipped: copy failed " + string(out)
@@ -327,6 +332,7 @@ func runBenign(repo, verifDir, prop string) map[string]interface{} {
 				return
 			}
 			defer os.RemoveAll(tmp)
+			defer debug.FreeOSMemory()
 			if _, err := exec.Command("cp", "-r", repo+"/.", tmp).CombinedOutput(); err != nil {
 				return
 			}
